@@ -205,6 +205,15 @@ pub fn family(tier: Tier) -> Vec<TrainCfg> {
             vec![vec![], vec!["ca,0,0,0,#,x\nbb,0,0,0,V,#\n"], vec!["cc,0,0,0,#,#\n", "ca,1,2,5,#,x\n"]],
         ),
         (
+            // templates that contain placeholder syntax of another kind (literal text there)
+            "crosskind",
+            vec![("a", "N,x"), ("b", "V,y"), ("ab", "N,z"), ("c", "P,x"), ("bc", "V,x")],
+            ["U%L[0]:%F[0]", "UT%R[1]-%t"],
+            [("B%t:%L[0]", "B%F[0]:%R[0]"), ("%L[1]", "%R?[1]")],
+            "a\tN,x\nb\tV,y\nEOS\nab\tN,z\nc\tP,x\nEOS\nbc\tV,x\na\tN,x\nEOS\n",
+            vec![vec![], vec!["ac,0,0,0,N,x\nca,0,0,0,V,new\n"], vec!["cc,0,0,0,Q,q\n", "ca,1,2,5,N,x\n"]],
+        ),
+        (
             // feature values containing the '/' that separates the two sides of a bigram.cost line
             "slashcell",
             vec![("a", "N/A,x"), ("b", "V,y"), ("ab", "N,z/w"), ("c", "P/Q,x"), ("bc", "V,x")],
@@ -1209,6 +1218,16 @@ pub fn run_family(which: Which, tier: Tier, st: &mut Stats, kf: &[KnownFinding])
                 }
             }
         }
+        // C16: a model saved WITH its user lexicons and reloaded (the reloaded model still holds the
+        // user labels' feature sets but no user entries)
+        if ok && !cfg.users.is_empty() && which == Which::C16 && (tier == Tier::Thorough || i % 2 == 1) {
+            if let Ok(mut m1) = roundtrip(&m) {
+                st.states += 1;
+                st.transitions += 1;
+                st.count("models_saved_with_user_lexicons_and_reloaded");
+                ok = check_c16(cfg, &mut m1, kf, st, "saved with its user lexicons and reloaded");
+            }
+        }
         // the same configuration with the user lexicons read AFTER a write_model/read_model round
         // trip of the trained model (ids handed out by the reloaded feature tables)
         if ok && !cfg.users.is_empty() && which != Which::C16 {
@@ -1290,9 +1309,9 @@ pub fn run_c16(tier: Tier) -> i32 {
     let kf = load_known_findings();
     let mut st = Stats::default();
     run_family(Which::C16, tier, &mut st, &kf);
-    rep.rule = "state = (training configuration of the C14 family, really trained; then injected weight vectors); the emitted (lex, bigram.left/right/cost) files are compiled with the raw and the dual connector and (lex, matrix.def) with the matrix connector; for every id pair incl. row/column 0 the costs must differ by at most K+1, and the dimensions must agree; the compiled raw/dual dictionary is then id-mapped (rotation of both sides) and must agree, pair by pair, with the equally permuted matrix.def; configurations with user lexicons are also run as (train without them, export, read the user lexicons, write_bigram_details BEFORE write_dictionary); distinct = distinct (configuration, weight count)".into();
+    rep.rule = "state = (training configuration of the C14 family, really trained; then injected weight vectors); the emitted (lex, bigram.left/right/cost) files are compiled with the raw and the dual connector and (lex, matrix.def) with the matrix connector; for every id pair incl. row/column 0 the costs must differ by at most K+1, and the dimensions must agree; the compiled raw/dual dictionary is then id-mapped (rotation of both sides) and must agree, pair by pair, with the equally permuted matrix.def; configurations with user lexicons are also run as (train without them, export, read the user lexicons, write_bigram_details BEFORE write_dictionary) and as (trained with them, write_model, read_model); distinct = distinct (configuration, weight count)".into();
     rep.bounds = json!({"max_iter": tier.pick(5, 30), "injected_weights": tier.pick(3, 5), "K": "0-3"});
-    rep.finish(st, &["models_trained", "raw_dictionaries_compared", "dual_dictionaries_compared", "mapped_bigram_dictionaries_compared", "models_exported_before_reading_user_lexicons", "id_pairs_with_nonzero_matrix_cost", "weight_vectors_injected"])
+    rep.finish(st, &["models_trained", "raw_dictionaries_compared", "dual_dictionaries_compared", "mapped_bigram_dictionaries_compared", "models_exported_before_reading_user_lexicons", "models_saved_with_user_lexicons_and_reloaded", "id_pairs_with_nonzero_matrix_cost", "weight_vectors_injected"])
 }
 
 /// C17 at the dictionary level: configurations whose rewrite.def has sections with and without
